@@ -82,14 +82,18 @@ CHECKS = {
    tech='contract-based verification with Kani: error-shape obligations and unchanged-on-error frame conditions in the bounded one-step harnesses; create_next_table error paths proved completely',
    text='For each path shape the documented error is asserted exactly (PageAlreadyMapped, ParentEntryHugePage, PageNotMapped, FrameAllocationFailed at each of the up to three allocation points) and on every Err the independent walker\'s answer for the target and a symbolic probe is unchanged and only parent flags were added. create_next_table\'s error paths are complete proofs over a symbolic entry.',
    note='Bounded as C01. One genuine defect found and fixed (failed map_to widened a huge page\'s flags); eleven obligations (2 MiB / 1 GiB update_flags and translate_page on table-pointing entries, set_flags_p3/p2_entry on huge leaves, recursive 4 KiB update_flags / translate_page through huge parents) are OPEN known findings (known_findings.txt): the check prints KNOWN-FINDING for them and exits 0.'),
+ 'C10': dict(engine=E1, cat='other',
+   tech='contract-based verification with Kani: bounded clean_up_addr_range checks on concrete page-table hierarchies (literal tables so CBMC constant-propagates the 512-entry scans), deallocator log and pre/post comparison against an independent walker',
+   text='Bounded stand-in only. For MappedPageTable::clean_up_addr_range on nine hand-picked concrete hierarchies (window inside a P1, window inside a P2, huge pages in P2 and P3, middle P1, two P1s across a boundary, empty range; thorough: full chain, canonical gap, last page) the harness asserts: every freed frame is a level-1..3 table of an allowed set that was empty at that moment, never the level-4 table / a huge frame / an unknown frame; each freed once and only after its parent slot was cleared; every table wholly inside the range that is or becomes empty was freed; through one symbolic (table, slot) every word is zero if it linked a freed table and unchanged otherwise; an independent walk of a symbolic address gives the same translation before and after; a second call frees and writes nothing.',
+   note='Bounded: concrete pre-states (one symbolic table word already exhausts 14 GB), concrete ranges, pool of 7 tables, MappedPageTable only. NOT covered: clean_up() over the whole address space (no verdict in 25 min), ranges covering a whole level-2/3 table, RecursivePageTable (recursive slot clause), symbolic hierarchies. Nothing here is counted as proved.'),
  'C09': dict(engine=E1, cat='other',
    tech='contract-based verification with Kani: word-by-word frame condition over the whole table pool through one symbolic (table, slot), allocator call counting, zero-before-use ghost flag, pointer checks for any access outside the pool',
    text='In every step harness all pool tables are compared before/after through one symbolic (table, slot) pair so only the dictated slots may change; data frames are not backed by objects, so any access outside page-table memory is a Kani pointer failure; allocator calls are counted (<= 1/2/3, none when tables exist, none in other operations); a fresh table is zeroed before its first entry is written. create_next_table: allocation iff unused, zeroed before return (complete proof).',
    note='Bounded as C01; clean_up (the only releasing operation) is not covered (C10).'),
 }
-
+ # (C10 moved to CHECKS: a bounded Kani check over concrete hierarchies exists since lib/C10_NOTES.md)
 NOT_APPLICABLE = {
- 'C10': "clean_up's recursive scan (iterator adapters over 512 entries per table through raw pointers) is outside Verus's subset without rewriting it and the smallest Kani scenario (4 tables, one-page range) did not finish in 14 min / 15 GB; no contract within reach decides it (DESIGN.md C10)",
+ 'C10_old': "clean_up's recursive scan (iterator adapters over 512 entries per table through raw pointers) is outside Verus's subset without rewriting it and the smallest Kani scenario (4 tables, one-page range) did not finish in 14 min / 15 GB; no contract within reach decides it (DESIGN.md C10)",
 }
 
 
